@@ -183,3 +183,8 @@ for rule in (0, 1):
 J('C01', 'c01_evnorm', 'c01_evnorm.cc', 'c01_evnorm', units=['ALL'], unit_defines=REAL_DEFS, defines={'RULE': 0, 'FKIND': 3},
   unwind=4, unwind_re={r'^__ll2c_mem': 10}, timeout=3000, mem_gb=20, object_bits=12, tv=0, tier='exp', covers=[1, 2],
   desc='real EV+ (long) set forest, 2 variables of size 2: createReducedNode with concrete node structure and symbolic 64-bit edge values (|v| < 2^40): normalisation to a canonical representative at level 1 and level 2')
+for root, be in (('c01_norm_evplus', 'sat'), ('c01_norm_evstar', 'z3')):
+    J('C01', root, 'c01_norm.cc', root, units=['unpacked_node.cc', 'policies.cc', 'error.cc', 'edge_value.cc'], unwind=5, timeout=1200, gxx_units=['ALL'], gxx_exclude=['forest.cc'],
+      backend=be, covers=[1, 2], tier=('quick' if 'plus' in root else 'thorough'),
+      desc='normalize_%s from the real forest.cc on a real full unpacked node of size 3: children symbolic handles (0 = transparent), edge values symbolic (%s)' % (
+          'evplus<long>' if 'plus' in root else 'evstar<float>', '|v| < 2^60' if 'plus' in root else 'non-zero finite floats'))
